@@ -5,9 +5,10 @@ use crate::chess::game::Game;
 use crate::framework::*;
 use crate::gen::Mix;
 use crate::refchess::{Kind, Pos};
+use crate::framework::Tape;
 use serde_json::json;
 
-pub const RULE: &str = "game histories: real moves only, from legal roots incl. FEN roots with halfmove clock in {0,1,3,5,49,50,97..101,150} and no history, chosen with a shuffle bias (prefer undoing the move of two plies ago) so that repetitions, repetitions spoiled by a rights / e.p. difference and clocks crossing 100 are common; a second family interleaves search-like null moves and take-backs. After every step, against the reference's own list of earlier positions: is_repeated_position() <=> an earlier position since the last capture or pawn move has the same identity (both directions on real-move histories; with null moves on the stack only 'true => such a position exists'); is_stalemate_by_fifty_move_rule() <=> clock >= 100 and a legal move exists; is_stalemate_by_insufficient_material() is true for K v K and K+minor v K, false whenever a pawn, rook or queen is on the board or more than two minors remain, unconstrained otherwise. Non-trivial = history in which the expected repetition verdict is true at least once, or the clock crosses 99->100, or a repetition candidate is spoiled by a rights / e.p. difference; distinct by (root, op list).";
+pub const RULE: &str = "game histories: real moves only, from legal roots incl. FEN roots with halfmove clock in {0,1,3,5,49,50,97..101,150} and no history, chosen with a shuffle bias (prefer undoing the move of two plies ago) so that repetitions, repetitions spoiled by a rights / e.p. difference and clocks crossing 100 are common; a second family interleaves search-like null moves and take-backs. After every step, against the reference's own list of earlier positions: is_repeated_position() <=> an earlier position since the last capture or pawn move has the same identity (both directions on real-move histories; with null moves on the stack only 'true => such a position exists'); is_stalemate_by_fifty_move_rule() <=> clock >= 100 and a legal move exists; is_stalemate_by_insufficient_material() is true for K v K and K+minor v K, false whenever a pawn, rook or queen is on the board or more than two minors remain, unconstrained otherwise. Search level ('draw_available_search'): when some legal move leads to a position drawn by the game history (repetition - possibly more than 50 plies back -, fifty-move rule, dead material), a depth 1-3 search with that history must not report a negative score. Non-trivial = history in which the expected repetition verdict is true at least once, or the clock crosses 99->100, or a repetition candidate is spoiled by a rights / e.p. difference; distinct by (root, op list).";
 
 #[derive(Default)]
 struct Obs {
@@ -171,6 +172,203 @@ pub fn run(run: &mut Run) -> &'static str {
         };
         if let Some((_, root, ops)) = interpret(case, &cfg, st, &mut obs)? {
             record(&obs, st, root, ops);
+        }
+        Ok(())
+    });
+    // search level: "score 0 reported for forced repetitions". If some legal move leads to a position
+    // that is drawn by the history (repetition since the last capture or pawn move, fifty-move rule,
+    // bare kings / king and one minor) then that child is scored as a draw at once, so the root score
+    // of a depth 1-3 search - the best over all root moves, the root is never pruned - cannot be
+    // negative. Games have up to 120 plies, so that the repeated position may lie far back.
+    let cases = run.tier.pick(30_000, 600_000);
+    run.proptest_part("draw_available_search", RULE, hist_case(4..260), cases, |case: &HistCase, st: &mut Stats| {
+        use super::searchlib::{build, run_search, Limit, SearchSpec};
+        struct Nop;
+        impl Observer for Nop {
+            fn after_op(&mut self, _g: &Game, _pos: &Pos, _op: &Op, _stack: &[Pos], _st: &mut Stats) -> Result<(), Fail> {
+                Ok(())
+            }
+        }
+        let cfg = Config { mix: Mix::Sparse, max_ops: 120, max_depth: 400, w_make: 1, w_undo: 0, w_null: 0, unwind_at_end: false, shuffle_bias: true };
+        let Some((_, root, ops)) = interpret(case, &cfg, st, &mut Nop)? else { return Ok(()) };
+        // replay on the reference model
+        let Ok(mut cur) = Pos::from_fen(&root) else { return Ok(()) };
+        let mut earlier: Vec<Pos> = vec![];
+        for o in &ops {
+            let Some(m) = cur.legal_moves().into_iter().find(|m| &m.uci() == o) else { return Ok(()) };
+            let next = cur.make(&m);
+            earlier.push(std::mem::replace(&mut cur, next));
+        }
+        let legal = cur.legal_moves();
+        if legal.is_empty() {
+            return Ok(());
+        }
+        let mut drawing: Vec<String> = vec![];
+        let mut far_back = false;
+        for m in &legal {
+            let child = cur.make(m);
+            let mut stack = earlier.clone();
+            stack.push(cur.clone());
+            let (rep, _) = expected_repetition(&child, &stack);
+            let fifty = child.halfmove >= 100 && !child.legal_moves().is_empty();
+            let dead = material_verdict(&child) == Some(true);
+            if rep || fifty || dead {
+                drawing.push(m.uci());
+                if rep {
+                    // how far back is the (nearest) identical position?
+                    let id = child.identity();
+                    if let Some(j) = stack.iter().rposition(|p| p.identity() == id) {
+                        if stack.len() - j > 50 {
+                            far_back = true;
+                        }
+                    }
+                }
+            }
+        }
+        if drawing.is_empty() {
+            return Ok(());
+        }
+        st.eval();
+        let spec = SearchSpec { fen: root.clone(), moves: ops.clone(), limit: Limit::Depth(1 + (ops.len() % 3) as u8) };
+        let ex = || json!({"Explicit": {"fen": root, "ops": ops}});
+        let Some((_, game)) = build(&spec) else { return Ok(()) };
+        let worse = crate::engine::eval::eval(&game).0 < -100;
+        if worse {
+            st.class("drawing_move_available_to_the_worse_side");
+            st.nontrivial(&(root.clone(), ops.clone()));
+            if st.want_nontrivial_sample() {
+                st.nontrivial_sample(json!({"root": root, "plies": ops.len(), "position": cur.to_fen(), "drawing_moves": drawing}));
+            }
+        }
+        if far_back {
+            st.class("repeated_position_lies_more_than_50_plies_back");
+        }
+        let mut state = crate::engine::search::PersistentState::new(1);
+        let out = run_search(&game, &mut state, &spec.limit, 0).map_err(|pm| Fail::new(&format!("search_panic:{}", panic_signature(&pm)), format!("search at {} panicked: {pm}", cur.to_fen())).explicit(ex()))?;
+        for info in &out.infos {
+            let negative = info.mate.map_or(false, |n| n < 0) || info.cp.map_or(false, |c| c < 0);
+            if negative {
+                return Err(Fail::new("search:draw_not_taken_into_account", format!("{} after {} plies: the move(s) {drawing:?} lead to a position drawn by the game history, yet the search reports '{}'", cur.to_fen(), ops.len(), info.text())).explicit(ex()));
+            }
+        }
+        Ok(())
+    });
+    // the same oracle on constructed games whose only repetition lies far back: the two kings walk
+    // closed tours of coprime lengths (3..8 squares) in opposite corners, so the whole position first
+    // recurs after 2*lcm plies (24..112); one side has spare pawns, and the game stops one ply before
+    // the recurrence with the worse side to move
+    let cases = run.tier.pick(6_000, 200_000);
+    run.proptest_part("far_back_repetition_search", RULE, hist_case(6..24), cases, |case: &HistCase, st: &mut Stats| {
+        use super::searchlib::{build, run_search, Limit, SearchSpec};
+        let (root, ops): (String, Vec<String>) = match case {
+            HistCase::Tape(data) => {
+                let mut t = Tape::new(data);
+                const TOURS: [&[(i32, i32)]; 6] = [
+                    &[(0, 0), (1, 1), (0, 1)],
+                    &[(0, 0), (1, 0), (1, 1), (0, 1)],
+                    &[(0, 0), (1, 1), (2, 1), (2, 0), (1, 0)],
+                    &[(0, 0), (1, 0), (2, 0), (2, 1), (1, 1), (0, 1)],
+                    &[(0, 0), (1, 1), (2, 1), (3, 1), (3, 0), (2, 0), (1, 0)],
+                    &[(0, 0), (1, 0), (2, 0), (2, 1), (2, 2), (1, 2), (0, 2), (0, 1)],
+                ];
+                let tw = TOURS[t.pick(6)];
+                let tb = TOURS[t.pick(6)];
+                let (ow, ob) = (t.pick(tw.len()), t.pick(tb.len()));
+                let wsq = |i: usize| crate::refchess::sq(tw[(ow + i) % tw.len()].0, tw[(ow + i) % tw.len()].1);
+                let bsq = |i: usize| crate::refchess::sq(7 - tb[(ob + i) % tb.len()].0, 7 - tb[(ob + i) % tb.len()].1);
+                let mut p = Pos::empty();
+                p.board[wsq(0) as usize] = Some(crate::refchess::Pc::new(true, Kind::K));
+                p.board[bsq(0) as usize] = Some(crate::refchess::Pc::new(false, Kind::K));
+                // spare pawns for White on ranks 4-5 (never touched; they only make Black the worse side)
+                let np = 2 + t.pick(3);
+                for i in 0..np {
+                    let f = (t.pick(8) as i32 + i as i32) % 8;
+                    let s = crate::refchess::sq(f, 3 + (i % 2) as i32);
+                    if p.board[s as usize].is_none() {
+                        p.board[s as usize] = Some(crate::refchess::Pc::new(true, Kind::P));
+                    }
+                }
+                p.white_to_move = true;
+                p.halfmove = [0u32, 0, 3, 10][t.pick(4)];
+                p.fullmove = 1 + t.pick(40) as u32;
+                let l = {
+                    let (a, b) = (tw.len(), tb.len());
+                    let g = |mut x: usize, mut y: usize| {
+                        while y != 0 {
+                            let r = x % y;
+                            x = y;
+                            y = r;
+                        }
+                        x
+                    };
+                    a * b / g(a, b)
+                };
+                let plies = 2 * l - 1; // Black to move; his tour move recreates the root position
+                let mut ops = vec![];
+                for i in 0..plies {
+                    let k = i / 2;
+                    let (from, to) = if i % 2 == 0 { (wsq(k), wsq(k + 1)) } else { (bsq(k), bsq(k + 1)) };
+                    ops.push(format!("{}{}", crate::refchess::sq_name(from), crate::refchess::sq_name(to)));
+                }
+                // colour swap for half of the cases
+                if t.pick(2) == 1 {
+                    p = p.mirror();
+                    for o in ops.iter_mut() {
+                        let b = o.as_bytes();
+                        let flip = |r: u8| (b'1' + (b'8' - r)) as char;
+                        *o = format!("{}{}{}{}", b[0] as char, flip(b[1]), b[2] as char, flip(b[3]));
+                    }
+                }
+                if p.validate().is_err() {
+                    st.discard();
+                    return Ok(());
+                }
+                (p.to_fen(), ops)
+            }
+            HistCase::Explicit { fen, ops } => (fen.clone(), ops.clone()),
+        };
+        let spec = SearchSpec { fen: root.clone(), moves: ops.clone(), limit: Limit::Depth(1 + (ops.len() % 3) as u8) };
+        let ex = || json!({"Explicit": {"fen": root, "ops": ops}});
+        let Some((cur, game)) = build(&spec) else {
+            st.discard();
+            return Ok(());
+        };
+        // reference: which replies lead to a position drawn by the history?
+        let Ok(mut rp) = Pos::from_fen(&root) else { return Ok(()) };
+        let mut earlier: Vec<Pos> = vec![];
+        for o in &ops {
+            let Some(m) = rp.legal_moves().into_iter().find(|m| &m.uci() == o) else { return Ok(()) };
+            let next = rp.make(&m);
+            earlier.push(std::mem::replace(&mut rp, next));
+        }
+        earlier.push(cur.clone());
+        let drawing: Vec<String> = cur
+            .legal_moves()
+            .iter()
+            .filter(|m| {
+                let child = cur.make(m);
+                expected_repetition(&child, &earlier).0 || (child.halfmove >= 100 && !child.legal_moves().is_empty()) || material_verdict(&child) == Some(true)
+            })
+            .map(|m| m.uci())
+            .collect();
+        if drawing.is_empty() {
+            st.class("no_drawing_reply(control)");
+            return Ok(());
+        }
+        st.eval();
+        st.class(if ops.len() + 1 > 50 && cur.halfmove < 99 { "first_recurrence_more_than_50_plies_back" } else if cur.halfmove >= 99 { "fifty_move_limit_reached" } else { "first_recurrence_within_50_plies" });
+        if crate::engine::eval::eval(&game).0 < -100 {
+            st.nontrivial(&(root.clone(), ops.len()));
+            if st.want_nontrivial_sample() {
+                st.nontrivial_sample(json!({"root": root, "plies": ops.len(), "position": cur.to_fen(), "drawing_moves": drawing}));
+            }
+        }
+        let mut state = crate::engine::search::PersistentState::new(1);
+        let out = run_search(&game, &mut state, &spec.limit, 0).map_err(|pm| Fail::new(&format!("search_panic:{}", panic_signature(&pm)), format!("search at {} panicked: {pm}", cur.to_fen())).explicit(ex()))?;
+        for info in &out.infos {
+            if info.mate.map_or(false, |n| n < 0) || info.cp.map_or(false, |c| c < 0) {
+                return Err(Fail::new("search:draw_not_taken_into_account", format!("{} after {} plies: the move(s) {drawing:?} lead to a position drawn by the game history, yet the search reports '{}'", cur.to_fen(), ops.len(), info.text())).explicit(ex()));
+            }
         }
         Ok(())
     });
